@@ -165,6 +165,16 @@ CLAIMED["C14"] = (
     "Provenance is judged on the untrimmed pool (sound for any trimming) and only for labels that had a training point; K4 crashes are classified as the recorded finding.",
     "DESIGN.md §2 C14",
 )
+CLAIMED["C18"] = (
+    "exploration",
+    "combinatorial generated testing: verified t-wise covering array over the 13 constructor/run options (each row a full run + postconditions, failures shrunk factor by factor) + Hypothesis one-factor-at-a-time invalid values with an instrumented likelihood",
+    "Invalid half: on top of a generated valid base exactly one documented constraint is violated (non-positive / non-integer n_dim or n_particles, "
+    "non-positive ess_ratio / volume_variation, unknown kernel / resampler, vectorize with blobs, overlapping / out-of-range / non-integer boundary "
+    "indices); the constructor must raise and the instrumented likelihood must have seen 0 points. Valid half: every pair (quick) / triple (thorough) "
+    "of values of the 13 options + dimension occurs in at least one executed run (coverage verified and reported); each must complete and satisfy the run postconditions.",
+    "t-wise coverage, not the full product (~1e6 combinations); interactions of 4+ options are only sampled. Undocumented values are not asserted either way.",
+    "DESIGN.md §2 C18",
+)
 
 ALL = [f"C{i:02d}" for i in range(1, 21)]
 
